@@ -3,8 +3,8 @@
 import z3
 from pyvc.engine import Loop, HMap
 from pyvc.types import Int, Bytes, IntMap, IdSeq, IdTuple, Const, ForAll, OneOf, Maker
-from pyvc.sym import And, Or, Not, Implies, If, Len, SSet, SEnum, SInt, SBool, is_sym, _ie
-from contracts.common import Registry, SetOf, table_configs, REF, ctab, EXT, In, At, gen_code, IsNone, OptVal
+from pyvc.sym import And, Or, Not, Implies, If, Len, SSet, SEnum, SInt, SBool, is_sym, _ie, Eq
+from contracts.common import Registry, SetOf, table_configs, REF, ctab, EXT, In, At, gen_code, IsNone, OptVal, Has, MapHas, MapAt
 from contracts import wordcode as CW
 from spec import wordcode as W, jumps as J
 
@@ -19,7 +19,7 @@ def Lookup(table, idx):
     """table[idx] for a concrete table and a possibly symbolic index"""
     if is_sym(idx):
         return SEnum(_ie(idx), table).collapse()
-    return table[idx]
+    return table[idx] if 0 <= idx < len(table) else None
 
 
 def is_word(opc):
@@ -118,12 +118,12 @@ def inst_post(value, bytecode, offset0, opc, j, linestarts, line_offset, names, 
         ("arg", value.arg == If(has_arg, A, None)),
         ("inst_size", value.inst_size == size),
         ("has_extended_arg", value.has_extended_arg == (j != 0)),
-        ("is_jump_target", value.is_jump_target == label_spec(bytecode, opc).contains(off)),
+        ("is_jump_target", value.is_jump_target == Has(label_spec(bytecode, opc), off)),
     ]
     if linestarts is None:
         out.append(("starts_line", IsNone(value.starts_line)))
     else:
-        out.append(("starts_line", value.starts_line == If(linestarts.contains(off), linestarts.at(off) + line_offset, None)))
+        out.append(("starts_line", value.starts_line == If(MapHas(linestarts, off), MapAt(linestarts, off) + line_offset, None)))
     # ---- argval (C03 / C04)
     is_const = In(op, r.hasconst)
     is_name = And(Not(is_const), In(op, r.hasname))
@@ -131,9 +131,9 @@ def inst_post(value, bytecode, offset0, opc, j, linestarts, line_offset, names, 
     is_jabs = And(Not(is_const), Not(In(op, r.hasname)), Not(In(op, r.hasjrel)), In(op, r.hasjabs))
     is_jump = Or(is_jrel, is_jabs)
     out.append(("argval-noarg", Implies(Not(has_arg), IsNone(value.argval))))
-    out.append(("argval-const", Implies(And(has_arg, is_const), value.argval == (A if constants is None else constants[A]))))
+    out.append(("argval-const", Implies(And(has_arg, is_const), value.argval == (A if constants is None else At(constants, A)))))
     ni = name_index(opc, op, A)
-    out.append(("argval-name", Implies(And(has_arg, is_name), value.argval == (A if names is None else If(ni < Len(names), names[ni], ni)))))
+    out.append(("argval-name", Implies(And(has_arg, is_name), value.argval == (A if names is None else If(ni < Len(names), At(names, ni), ni)))))
     out.append(("argval-jump", Implies(And(has_arg, is_jump), value.argval == jump_target(opc, off, op, A))))
     other = And(Not(is_const), Not(In(op, r.hasname)), Not(In(op, r.hasjrel)), Not(In(op, r.hasjabs)))
     is_local = And(other, In(op, r.haslocal))
@@ -161,7 +161,7 @@ def inst_post(value, bytecode, offset0, opc, j, linestarts, line_offset, names, 
     if vt >= (3, 13):
         pair_ops = [r.opmap[n] for n in ("LOAD_FAST_LOAD_FAST", "STORE_FAST_LOAD_FAST", "STORE_FAST_STORE_FAST") if n in r.opmap]
         is_pair = In(op, frozenset(pair_ops))
-        out.append(("argval-local-pair", Implies(And(has_arg, is_local, is_pair), value.argval == (lp_at(A >> 4), lp_at(A & 15)))))
+        out.append(("argval-local-pair", Implies(And(has_arg, is_local, is_pair), Eq(value.argval, (lp_at(A >> 4), lp_at(A & 15))))))
         out.append(("argval-local", Implies(And(has_arg, is_local, Not(is_pair)), value.argval == lp_at(A))))
     elif vt >= (3, 11):
         out.append(("argval-local", Implies(And(has_arg, is_local), value.argval == lp_at(A))))
@@ -205,7 +205,7 @@ def dec_invariant(bytecode, opc, _old_offset, i, n, extended_arg, extended_arg_c
     have, ext = opc.HAVE_ARGUMENT, EXT(opc)
     Wd = width(opc)
     common = And(
-        n == Len(bytecode), _ny >= 0, i == _old_offset + Wd * _ny,
+        n == Len(bytecode), _ny >= 0, Implies(last_op_was_extended_arg, i == _old_offset + Wd * _ny),
         extended_arg >= 0,
         Implies(last_op_was_extended_arg, extended_arg == grp_ext(bytecode, opc, _old_offset, _ny)),
         Implies(last_op_was_extended_arg, extended_arg_count == _ny),
